@@ -129,6 +129,212 @@ def loop_texts(fn):
     return sorted(_shape_txt(n) for n in ast.walk(fn) if isinstance(n, ast.For))
 
 
+def _fmt_parts(node):
+    """a string built by ``'..%s..' % args`` / ``'..{}..'.format(args)`` / an f-string -> (style, template with {} / {:spec} / {!r}
+    placeholders, [argument nodes]); None for anything else"""
+    import re
+    if isinstance(node, ast.JoinedStr):
+        t, args = '', []
+        for v in node.values:
+            if isinstance(v, ast.Constant):
+                t += str(v.value).replace('{', '{{').replace('}', '}}')
+            elif isinstance(v, ast.FormattedValue):
+                spec = ''
+                if v.format_spec is not None:
+                    if not all(isinstance(x, ast.Constant) for x in v.format_spec.values):
+                        return None
+                    spec = ''.join(str(x.value) for x in v.format_spec.values)
+                conv = {115: '!s', 114: '!r', 97: '!a'}.get(v.conversion, '')
+                t += '{%s%s}' % (conv, (':' + spec) if spec else '')
+                args.append(v.value)
+            else:
+                return None
+        return ('fstr', t, args) if args else None
+    if isinstance(node, ast.Call) and isinstance(node.func, ast.Attribute) and node.func.attr == 'format' and isinstance(node.func.value, ast.Constant) \
+            and isinstance(node.func.value.value, str) and not node.keywords and not any(isinstance(a, ast.Starred) for a in node.args):
+        txt = node.func.value.value
+        args, out, pos, auto = [], '', 0, 0
+        for mt in re.finditer(r'\{\{|\}\}|\{(\d*)((?:![sra])?)((?::[^{}]*)?)\}', txt):
+            out += txt[pos:mt.start()]
+            pos = mt.end()
+            if mt.group(0) in ('{{', '}}'):
+                out += mt.group(0)
+                continue
+            idx = int(mt.group(1)) if mt.group(1) else auto
+            auto += 1
+            if idx >= len(node.args):
+                return None
+            args.append(node.args[idx])
+            out += '{%s%s}' % (mt.group(2), mt.group(3) if mt.group(3) != ':' else '')
+        return ('format', out + txt[pos:], args) if args else None
+    if isinstance(node, ast.BinOp) and isinstance(node.op, ast.Mod) and isinstance(node.left, ast.Constant) and isinstance(node.left.value, str):
+        txt = node.left.value
+        vals = list(node.right.elts) if isinstance(node.right, ast.Tuple) else [node.right]
+        args, out, pos, i = [], '', 0, 0
+        for mt in re.finditer(r'%%|%(0?)(\d*)([sdXxrf])', txt):
+            out += txt[pos:mt.start()].replace('{', '{{').replace('}', '}}')
+            pos = mt.end()
+            if mt.group(0) == '%%':
+                out += '%'
+                continue
+            if i >= len(vals):
+                return None
+            args.append(vals[i])
+            i += 1
+            spec = mt.group(1) + mt.group(2) + (mt.group(3) if mt.group(3) not in 'sr' else '')
+            out += '{%s%s}' % ('!r' if mt.group(3) == 'r' else '', (':' + spec) if spec else '')
+        if '%' in txt[pos:] or i != len(vals):
+            return None
+        return ('pct', out + txt[pos:].replace('{', '{{').replace('}', '}}'), args) if args else None
+    return None
+
+
+def fmt_shape(fn):
+    """{style: [templates]} of the formatted strings of a function"""
+    out = {}
+    for n in ast.walk(fn):
+        fp = _fmt_parts(n)
+        if fp:
+            out.setdefault(fp[0], []).append(fp[1])
+    return {k: sorted(v) for k, v in out.items()}
+
+
+def _fmt_build(style, template, args, like):
+    """the formatted string in another style; None when the template cannot be written in it"""
+    import re
+    if style == 'format':
+        return ast.copy_location(ast.Call(func=ast.Attribute(value=ast.Constant(value=template), attr='format', ctx=ast.Load()), args=list(args), keywords=[]), like)
+    if style == 'pct':
+        out, pos = '', 0
+        for mt in re.finditer(r'\{\{|\}\}|\{((?:![sra])?)((?::[^{}]*)?)\}', template):
+            out += template[pos:mt.start()].replace('%', '%%')
+            pos = mt.end()
+            if mt.group(0) in ('{{', '}}'):
+                out += mt.group(0)[0]
+                continue
+            conv, spec = mt.group(1), mt.group(2)[1:]
+            if conv not in ('', '!r', '!s') or (conv and spec):
+                return None
+            if conv == '!r':
+                out += '%r'
+            elif not spec:
+                out += '%s'
+            elif re.fullmatch(r'0?\d*[dXxf]', spec):
+                out += '%' + spec
+            else:
+                return None
+        out += template[pos:].replace('%', '%%')
+        right = args[0] if len(args) == 1 and not isinstance(args[0], ast.Tuple) else ast.Tuple(elts=list(args), ctx=ast.Load())
+        return ast.copy_location(ast.BinOp(left=ast.Constant(value=out), op=ast.Mod(), right=right), like)
+    return None
+
+
+def restyle_formats(tree, ref):
+    """A formatted string whose template the reference wrote in another style (f-string / str.format / %) is written back in
+    that style: the three spell the same string for the placeholders handled here."""
+    known = ref.get('fmt', {})
+    total = 0
+    for q, fn in functions(tree):
+        r = known.get(q)
+        if not r:
+            continue
+
+        class T(ast.NodeTransformer):
+            def generic_visit(self, n):
+                super().generic_visit(n)
+                fp = _fmt_parts(n) if isinstance(n, (ast.JoinedStr, ast.Call, ast.BinOp)) else None
+                if fp and fp[1] not in r.get(fp[0], []):
+                    for style in ('pct', 'format'):
+                        if style != fp[0] and fp[1] in r.get(style, []):
+                            new = _fmt_build(style, fp[1], fp[2], n)
+                            if new is not None:
+                                T.count += 1
+                                return new
+                return n
+        T.count = 0
+        T().visit(fn)
+        total += T.count
+    return total
+
+
+def restore_closures(tree, ref):
+    """A nested function of the reference that became a private method bound with functools.partial (or a lambda) at the place
+    where the closure was passed:  partial(self._m, a, b)  ->  the nested function again, with a, b captured.  Only when the bound
+    arguments are names the enclosing function never re-binds (a closure reads them at call time, partial at bind time)."""
+    known = set(ref.get('funcs', []))
+    fl = functions(tree)
+    have = {q for q, _ in fl}
+    byq = dict(fl)
+    total = 0
+    for q, fn in fl:
+        pre = q + '.<locals>.'
+        missing = [k for k in known if k.startswith(pre) and '.<locals>.' not in k[len(pre):] and k not in have]
+        if len(missing) != 1 or '.' not in q or not fn.args.args:
+            continue
+        cls_q, me = q.rsplit('.', 1)[0], fn.args.args[0].arg
+        sites = []
+        for n in _own_walk(fn):
+            call = None
+            if isinstance(n, ast.Call) and _txt(n.func) in ('partial', 'functools.partial') and n.args and not n.keywords:
+                tgt, bound, extra = n.args[0], n.args[1:], None
+                call = n
+            elif isinstance(n, ast.Lambda) and isinstance(n.body, ast.Call) and not n.body.keywords and not (n.args.vararg or n.args.kwarg or n.args.kwonlyargs or n.args.defaults):
+                lp = [a.arg for a in n.args.args]
+                tgt, allargs = n.body.func, n.body.args
+                if lp and [_txt(a) for a in allargs[len(allargs) - len(lp):]] != lp:
+                    continue
+                bound, extra = allargs[:len(allargs) - len(lp)], lp
+                call = n
+            if call is None or not (isinstance(tgt, ast.Attribute) and isinstance(tgt.value, ast.Name) and tgt.value.id == me):
+                continue
+            mq = '%s.%s' % (cls_q, tgt.attr)
+            if mq in known or mq not in byq:
+                continue
+            sites.append((call, byq[mq], bound))
+        if len(sites) != 1:
+            continue
+        call, helper, bound = sites[0]
+        stored = _stores(fn.body)
+        if not all(isinstance(b, ast.Constant) or (isinstance(b, ast.Name) and b.id not in stored) for b in bound):
+            continue
+        ha = helper.args
+        if ha.vararg or ha.kwarg or ha.kwonlyargs or ha.posonlyargs or helper.decorator_list or len(ha.args) < 1 + len(bound) or ha.args[0].arg != me:
+            continue
+        names = [a.arg for a in ha.args[1:]]
+        sub = {p_: b for p_, b in zip(names, bound) if not (isinstance(b, ast.Name) and b.id == p_)}
+        if any(p_ in _stores(helper.body) for p_ in sub):
+            continue
+        body = copy.deepcopy(helper.body)
+        if sub:
+            s_ = _Subst(sub)
+            body = [s_.visit(x) for x in body]
+        rest = ha.args[1 + len(bound):]
+        nd = len(ha.defaults)
+        short = missing[0][len(pre):]
+        nested = ast.FunctionDef(name=short, args=ast.arguments(posonlyargs=[], args=copy.deepcopy(rest), vararg=None, kwonlyargs=[], kw_defaults=[], kwarg=None,
+                                                                defaults=copy.deepcopy(ha.defaults[max(0, nd - len(rest)):]) if nd else []),
+                                 body=body, decorator_list=[], returns=None, type_comment=None, type_params=[])
+        ast.copy_location(nested, helper)
+        at = 1 if _has_doc(fn.body) else 0
+        fn.body.insert(at, nested)
+
+        class R(ast.NodeTransformer):
+            def visit(self, n):
+                if n is call:
+                    return ast.copy_location(ast.Name(id=short, ctx=ast.Load()), n)
+                return super().visit(n)
+        for i in range(at + 1, len(fn.body)):
+            fn.body[i] = R().visit(fn.body[i])
+        refs = [n for n in ast.walk(tree) if isinstance(n, ast.Attribute) and n.attr == helper.name]
+        if not refs:
+            for parent in ast.walk(tree):
+                b = getattr(parent, 'body', None)
+                if isinstance(b, list) and helper in b:
+                    b.remove(helper)
+        total += 1
+    return total
+
+
 def import_shape(tree):
     """({bound name: 'module.attr'} for from-imports, [module names bound by plain imports]) at module level (incl. try/if blocks)"""
     frm, mods = {}, []
@@ -157,8 +363,10 @@ def shape_of(tree):
         'comps': {q: comp_texts(f) for q, f in functions(tree) if comp_texts(f)},
         'consts': sorted(const_names(tree)),
         'funcs': sorted(q for q, _ in functions(tree)),
+        'func_order': [q for q, _ in functions(tree)],
         'attrs': {q: class_attr_order(c) for q, c in classes(tree)},
         'ifexps': {q: ifexp_texts(f) for q, f in functions(tree) if ifexp_texts(f)},
+        'fmt': {q: fmt_shape(f) for q, f in functions(tree) if fmt_shape(f)},
     }
 
 
@@ -255,7 +463,34 @@ def _const_node(value, like):
     """AST of a literal that prints like the reference code would have written it (hex stays a plain int - rules fold or compare values)"""
     import math
     txt = repr(value).replace(repr(math.pi), 'np.pi')
-    return ast.copy_location(ast.parse(txt, mode='eval').body, like)
+    node = ast.copy_location(ast.parse(txt, mode='eval').body, like)
+    node._inl = True                  # came from a named constant: integer arithmetic on it is folded (_fold_inlined)
+    return node
+
+
+def _constants(tree, ref):
+    k = inline_constants(tree, ref)
+    if k:
+        _FoldInlined().visit(tree)
+    return k
+
+
+class _FoldInlined(ast.NodeTransformer):
+    """`N + 1` with N an inlined integer constant is the literal the reference wrote (`data[:N] + data[N + 1:]` -> `data[:2] + data[3:]`)"""
+    OPS = {ast.Add: lambda a, b: a + b, ast.Sub: lambda a, b: a - b, ast.Mult: lambda a, b: a * b, ast.LShift: lambda a, b: a << b,
+           ast.BitOr: lambda a, b: a | b, ast.BitAnd: lambda a, b: a & b}
+    count = 0
+
+    def visit_BinOp(self, n):
+        self.generic_visit(n)
+        a, b = n.left, n.right
+        if type(n.op) in self.OPS and all(isinstance(x, ast.Constant) and isinstance(x.value, int) and not isinstance(x.value, bool) for x in (a, b)) \
+                and (getattr(a, '_inl', False) or getattr(b, '_inl', False)) and (not isinstance(n.op, ast.LShift) or 0 <= b.value < 64):
+            out = ast.copy_location(ast.Constant(value=self.OPS[type(n.op)](a.value, b.value)), n)
+            out._inl = True
+            _FoldInlined.count += 1
+            return out
+        return n
 
 
 # ---------------------------------------------------------------------------------------------- 1. attributes
@@ -291,15 +526,23 @@ def rename_methods(tree, ref):
     scopes = [('', tree.body)] + [(q + '.', c.body) for q, c in classes(tree)]
     for prefix, body in scopes:
         have = [st.name for st in body if isinstance(st, (ast.FunctionDef, ast.AsyncFunctionDef))]
-        want = [k[len(prefix):] for k in known if k.startswith(prefix) and '.' not in k[len(prefix):]]
+        want = [k[len(prefix):] for k in (ref.get('func_order') or known) if k.startswith(prefix) and '.' not in k[len(prefix):]]
         unknown = [h for h in have if h not in want]
         missing = [w for w in want if w not in have]
         if not unknown or len(unknown) != len(missing) or not all(u.startswith('_') and not u.startswith('__') for u in unknown):
             continue
         # a renamed method keeps its arity: pair by definition order, require equal parameter counts when the reference knows them
-        mapping = dict(zip(unknown, missing))
         defs = {st.name: st for st in body if isinstance(st, (ast.FunctionDef, ast.AsyncFunctionDef))}
         ar = ref.get('arity', {})
+        mapping, left = {}, list(missing)
+        for u in unknown:
+            au = len(defs[u].args.args) + len(defs[u].args.kwonlyargs)
+            cand = [w for w in left if ar.get(prefix + w) == au]
+            if cand:
+                mapping[u] = cand[0]
+                left.remove(cand[0])
+        if len(mapping) != len(unknown):
+            continue
         if any(ar.get(prefix + w) != len(defs[u].args.args) + len(defs[u].args.kwonlyargs) for u, w in mapping.items()):
             continue            # different signature: not a plain rename
         if any(w in {x.attr for x in ast.walk(tree) if isinstance(x, ast.Attribute)} | {x.id for x in ast.walk(tree) if isinstance(x, ast.Name)} for w in mapping.values()):
@@ -569,11 +812,30 @@ def _bind(helper, call, skip_first):
             (isinstance(v, ast.UnaryOp) and isinstance(v.operand, ast.Constant))
         first_stmt_only = uses == 1 and _pure(v, allow_self=True) and bool(body0) and any(
             isinstance(n, ast.Name) and n.id == p for root in _stmt_exprs(body0[0]) for n in ast.walk(root))
-        if p not in stored and (stable or first_stmt_only):
+        # `self.x` handed to a helper that only calls methods of that parameter (and pure builtins / the logger) and stores no
+        # attribute: nothing in the body can re-bind self.x, reading it at each use gives the object the parameter held
+        quiet_attr = isinstance(v, ast.Attribute) and isinstance(v.value, ast.Name) and _quiet_body(helper, p)
+        if p not in stored and (stable or first_stmt_only or quiet_attr):
             sub[p] = v
         else:
             lead.append(ast.copy_location(ast.Assign(targets=[ast.Name(id=p, ctx=ast.Store())], value=copy.deepcopy(v), lineno=call.lineno), call))
     return sub, lead
+
+
+def _quiet_body(helper, param):
+    for n in ast.walk(helper):
+        if isinstance(n, ast.Attribute) and isinstance(n.ctx, (ast.Store, ast.Del)):
+            return False
+        if isinstance(n, (ast.Global, ast.Nonlocal, ast.Await, ast.Yield, ast.YieldFrom)):
+            return False
+        if isinstance(n, ast.Call):
+            f = n.func
+            if isinstance(f, ast.Attribute) and isinstance(f.value, ast.Name) and f.value.id in (param, 'logger', 'logging'):
+                continue
+            if isinstance(f, ast.Name) and f.id in ('len', 'int', 'float', 'bool', 'str', 'tuple', 'list', 'isinstance', 'range', 'min', 'max', 'abs'):
+                continue
+            return False
+    return True
 
 
 def _returns(stmts):
@@ -650,6 +912,19 @@ def _expand_call(stmt, call, helper, skip_first):
             return [ast.copy_location(ast.Assign(targets=copy.deepcopy(tg), value=r.value if r.value is not None else ast.Constant(value=None), lineno=r.lineno), r)]
         if not rets:
             return None
+        # `x = helper()` where every return of the helper hands back the same local L: L *is* x (alpha renaming of a local that
+        # dies at the return), provided the name x does not occur in the helper body
+        if len(tg) == 1 and isinstance(tg[0], ast.Name) and all(isinstance(r.value, ast.Name) for r in rets) and \
+                len({r.value.id for r in rets}) == 1:
+            loc, new_name = rets[0].value.id, tg[0].id
+            names_in_body = {n.id for x in body for n in ast.walk(x) if isinstance(n, ast.Name)}
+            params = {p.arg for p in helper.args.args}
+            if loc != new_name and loc in _stores(body) and loc not in params and new_name not in names_in_body and \
+                    not any(isinstance(n, (ast.Global, ast.Nonlocal, ast.FunctionDef, ast.Lambda)) for x in body for n in ast.walk(x)):
+                for x in body:
+                    for n in ast.walk(x):
+                        if isinstance(n, ast.Name) and n.id == loc:
+                            n.id = new_name
         if _lower_loop_returns(body, tg):
             return lead + body
         if not _tail_returns_to(body, mk):
@@ -809,6 +1084,10 @@ def _all_paths_leave(stmts):
         return True
     if isinstance(last, ast.If):
         return bool(last.orelse) and _all_paths_leave(last.body) and _all_paths_leave(last.orelse)
+    if isinstance(last, ast.Try):
+        if last.finalbody and _all_paths_leave(last.finalbody):
+            return True
+        return _all_paths_leave(last.orelse or last.body) and all(_all_paths_leave(h.body) for h in last.handlers)
     return False
 
 
@@ -911,7 +1190,9 @@ def inline_helpers(tree, ref):
                             rep = _expand_call(st, hit, helper, skip_first=(cls_q is not None and not is_static))
                             if rep is None:
                                 continue
-                            block[i:i + 1] = rep or [ast.copy_location(ast.Pass(), st)]
+                            rep = rep or [ast.copy_location(ast.Pass(), st)]
+                            _renumber(rep, st)
+                            block[i:i + 1] = rep
                             changed = True
                             done += 1
                             break
@@ -932,6 +1213,22 @@ def inline_helpers(tree, ref):
         if not done:
             break
     return total
+
+
+def _renumber(stmts, site):
+    """Inlined statements take their place in the caller's line order: the line of the call site plus a fraction that grows in
+    source order (rules order statements by line; '%d' shows the line of the call site)."""
+    base, gap = site.lineno, getattr(site, '_gap', 1.0)
+    todo, nodes = list(reversed(stmts)), []
+    while todo:
+        n = todo.pop()
+        if hasattr(n, 'lineno') or isinstance(n, (ast.stmt, ast.expr, ast.excepthandler)):
+            nodes.append(n)
+        todo.extend(reversed(list(ast.iter_child_nodes(n))))
+    step = gap / (len(nodes) + 1)
+    for k, n in enumerate(nodes):
+        n.lineno = n.end_lineno = base + k * step
+        n._gap = step
 
 
 def _callee(call, cls_q):
@@ -1318,7 +1615,7 @@ def normalise(tree, path, ref_locals):
         return {}
     out = {}
     for name, fn in (('annotations', lambda: strip_annotations(tree, ref)), ('imports', lambda: normalise_imports(tree, ref)), ('attributes', lambda: rename_attributes(tree, ref)),
-                     ('methods', lambda: rename_methods(tree, ref)), ('constants', lambda: inline_constants(tree, ref)),
+                     ('methods', lambda: rename_methods(tree, ref)), ('formats', lambda: restyle_formats(tree, ref)), ('closures', lambda: restore_closures(tree, ref)), ('constants', lambda: _constants(tree, ref)),
                      ('structs', lambda: inline_struct_objects(tree, ref)),
                      ('helpers', lambda: inline_helpers(tree, ref)), ('ifexps', lambda: expand_ifexps(tree, ref)),
                      ('unrolled', lambda: unroll_loops(tree, ref)),
